@@ -103,6 +103,8 @@ pub struct QueueRec {
     /// set when the device deliberately corrupted driver-owned areas (C07): the recorder then
     /// stops diffing whole areas, it only reads what the hook announces
     pub scribbled: bool,
+    /// the available index was seen more than a ring ahead of the device (reported once)
+    pub bad_avail: bool,
 }
 
 pub const PAGE: usize = 4096;
@@ -201,7 +203,7 @@ impl World {
         if self.muted {
             // inside an unlogged (skipped) segment only anomalies are kept
             let e = v["e"].as_str().unwrap_or("");
-            if !matches!(e, "DevBadAddress" | "UnhookedStore" | "Panic" | "Stuck") {
+            if !matches!(e, "DevBadAddress" | "DevBadAvail" | "UnhookedStore" | "Panic" | "Stuck") {
                 return;
             }
         }
@@ -349,6 +351,7 @@ impl World {
             in_new: true,
             stores_since_full_diff: 0,
             scribbled: false,
+            bad_avail: false,
         };
         self.queues.insert(q, rec);
         // which DMA regions hold this queue's rings (for the teardown-order guard of C09)
@@ -622,6 +625,20 @@ impl World {
             (r.n, r.avail_pa, r.dev_next)
         };
         if idx == dev_next {
+            return None;
+        }
+        // (a device that reports completions it never took lets the driver run ahead of it: under
+        // the adversary of C07 this is expected, the device just keeps taking in ring order)
+        if idx.wrapping_sub(dev_next) as usize > n && self.adv.is_none() {
+            // more entries than the ring has: the index moved backwards or ran ahead - nothing a
+            // device could sensibly take (no action in any specification: the trace ends here)
+            let already = self.queues.get(&q).map(|r| r.bad_avail).unwrap_or(true);
+            if !already {
+                self.qev(q, json!({"e":"DevBadAvail","idx":idx,"next":dev_next,"n":n}));
+                if let Some(r) = self.queues.get_mut(&q) {
+                    r.bad_avail = true;
+                }
+            }
             return None;
         }
         let slot = dev_next as usize & (n - 1);
